@@ -242,8 +242,21 @@ pub fn catalogue() -> Vec<Prog> {
     v.push(p("failcall2", true, b"", vec![pc_lab("call", 0, "fail"), add_i(1, 1, 1), halt(), add_i(2, 2, 2).lab("fail"), trap(0x30)]));
     v.push(p("badtrap", false, b"", vec![add_i(0, 0, 1), trap(0x30), halt()]));
     v.push(p("rawd_off", false, b"", vec![add_i(0, 0, 1), fill(0xD000 + 0x400 + 0x40), halt()]));
+    // ... reached while R7 points outside user space: the gate comes first whatever the stack pointer is
+    v.push(p("rawd_off_r7top", false, b"", vec![and_i(7, 7, 0), add_i(7, 7, -1), fill(0xD000 + 0x400 + 0x40), halt()]));
+    v.push(p("rawd_off_r7low", false, b"", vec![pc_lab("ld", 7, "v"), fill(0xD000 + 0x80), halt(), fill(0x2FFF).lab("v")]));
+    v.push(p("rawd_off_r7zero", false, b"", vec![and_i(7, 7, 0), fill(0xD000), halt()]));
     v.push(p("rawd_on", true, b"", vec![add_i(0, 0, 1), fill(0xD000 + 0x400 + 0x40), fill(0xD000 + 0x80), halt()]));
     v.push(p("highorig", false, b"", vec![orig(0xFDFC), add_i(0, 0, 1), add_i(0, 0, 1).lab("l2"), add_i(0, 0, 1)]));
+    // images that straddle the end of user space (with .break beyond it) and the sign boundary of 16-bit addresses
+    v.push(p("straddle", false, b"", vec![orig(0xFDFD), add_i(0, 0, 1), halt().lab("stop"), fill(1).lab("last"), plain("break"), fill(2).lab("hi"),
+                                         plain("break"), fill(3), fill(4).lab("hi2")]));
+    v.push(p("mid8000", false, b"", vec![orig(0x7FFD), add_i(0, 0, 1), add_i(1, 1, 1).lab("lo1"), add_i(2, 2, 1).lab("lo"), plain("break"), add_i(3, 3, 1).lab("hi8"),
+                                        add_i(4, 4, 1), halt().lab("done8"), fill(7).lab("far8")]));
+    // a call to the very next instruction (the read-my-own-address idiom): the return address is reached after one instruction
+    v.push(p("jsrnext", false, b"", vec![add_i(0, 0, 1), pc_lab("jsr", 0, "here"), add_i(1, 7, 0).lab("here"), pc_lab("lea", 2, "h2"), reg1("jsrr", 2),
+                                        add_i(3, 7, 0).lab("h2"), halt()]));
+    v.push(p("callnext", true, b"", vec![add_i(0, 0, 1), pc_lab("call", 0, "here"), reg1("pop", 1).lab("here"), add_i(2, 1, 0), halt()]));
     v.push(p("wrapld", false, b"", vec![orig(0x0000), pc_lit("ld", 0, -3), pc_lit("st", 0, -4), pc_lit("lea", 1, -2), base_off("ldr", 2, 1, -1), halt()]));
     v.push(p("data", false, b"", vec![
         pc_lab("ld", 0, "a"), pc_lab("ldi", 1, "pa"), pc_lab("lea", 2, "a"), base_off("ldr", 3, 2, 1), base_off("str", 3, 2, 2),
@@ -514,10 +527,33 @@ pub fn random_cmd(rng: &mut Rng, prog: &Prog, orig: i64, n: i64, mutating: bool)
             eval(&it, true, None, rng)
         }
         22 => simple("reset", rng),
+        23 if rng.chance(2, 3) => {
+            // malformed eval text derived from a well-formed instruction: one operand missing, one token too many, or one operand of the wrong kind
+            let it = eval_item(rng, prog);
+            let canon = render_stmt(rng, &it, false);
+            let mut toks: Vec<String> = canon.split_whitespace().map(|t| t.trim_matches(',').to_string()).filter(|t| !t.is_empty()).collect();
+            const ZOO: [&str; 16] = ["r1", "#1", "x10", "foo", "\"s\"", ".end", ".END x1", ".fill", ".break", ".orig", ".blkw", ".stringz", "halt", "add", "\"\"", ".end add r4 r1 r1"];
+            let is_reg = |t: &str| t.len() == 2 && (t.starts_with('r') || t.starts_with('R')) && t.as_bytes()[1].is_ascii_digit();
+            match rng.below(3) {
+                0 if toks.len() > 1 => { toks.pop(); }
+                1 if toks.len() > 1 => {
+                    let k = 1 + rng.below(toks.len() as u64 - 1) as usize;
+                    // (the third operand of ADD/AND may be a register or an immediate: only kinds that fit neither)
+                    let third_of_alu = k == 3 && ["add", "and"].contains(&toks[0].to_lowercase().as_str());
+                    let repl: &[&str] = if is_reg(&toks[k]) && third_of_alu { &["\"r1\"", ".fill", "foo"] }
+                                        else if is_reg(&toks[k]) { &["#1", "\"r1\"", ".fill", "x3"] }
+                                        else if toks[k].starts_with('#') || toks[k].starts_with('x') { &["\"1\"", ".end", "foo", "\"#2\""] }
+                                        else { &["r1", "\"lab\"", ".end", "\"\""] };
+                    toks[k] = rng.pick(repl).to_string();
+                }
+                _ => toks.push(rng.pick(&ZOO).to_string()),
+            }
+            eval(&add_i(1, 1, 1), false, Some(toks.join(" ")), rng)
+        }
         _ => {
             // malformed eval text
             let it = add_i(1, 1, 1);
-            let txt = *rng.pick(&["add r1 r1", "add r1 r1 r1 r1", "add r1 r1 #1 #2", "add r1 #1 r1", ".fill x3000", "add r1 r1 #1 add r2 r2 #1",
+            let txt = *rng.pick(&[".end", ".end add r1 r1 #1", "\"add\" r1 r1 #1", "add r3 r1 \"2\"", "trap \"x21\"", "jmp r1 .end", "add r1 r1", "add r1 r1 r1 r1", "add r1 r1 #1 #2", "add r1 #1 r1", ".fill x3000", "add r1 r1 #1 add r2 r2 #1",
                                   "lea r0", "foo", "ld r0 r1", "not r1", "add r1, r1, #99", "trap", "x3000", "r1", "puts r0", "ret r7"]);
             eval(&it, false, Some(txt.to_string()), rng)
         }
@@ -899,7 +935,7 @@ pub fn main(args: &Args) {
     let mut out = Out::create(&path);
     let total = sessions.len();
     for sess in sessions {
-        let events = on_fresh_thread(move || run_session(&sess));
+        let events = run_session_watched(sess);
         for e in &events {
             out.emit(e);
         }
